@@ -8,7 +8,10 @@ import checklib
 MODULES = ["Ecal.Props.C12"]
 GEN = os.path.join(checklib.LEAN, "Ecal", "Gen", "C12.lean")
 
-RULE = ("case = generated ECAL program (1..3 roles, each a sequence of mutex blocks over names a,b,c, nesting <=3 incl. "
+RULE = ("id-generator cases (mode I): 2..16 goroutines request >= 10^5 ids in total from pool.NewThreadID / "
+        "erp.NewThreadID at the same moment, also while SetWorkerCount spawns workers (whose ids are collected by "
+        "rendezvous tasks): no duplicate, no zero id. Directly evaluated threads request their ids concurrently. "
+        "Other cases: case = generated ECAL program (1..3 roles, each a sequence of mutex blocks over names a,b,c, nesting <=3 incl. "
         "same-name re-entry, every exit kind n/e/r/b/c from inside a block, exits through 1..3 frames at once, "
         "non-atomic read-yield-write of a per-name global counter in every block) + thread configuration "
         "(2..16 threads; S = pool workers triggered by concurrently posted events, D = goroutines with their own "
@@ -31,10 +34,12 @@ META = dict(
                 "exactly one acquiring frame), different_names_independent + other_names_untouched (enabledness and effect "
                 "of an event involve only its own name), reentrant_no_block + decision_matches_ownership, "
                 "released_on_every_exit + release_steps_never_block (all five outcomes), later_entrant_gets_in + "
-                "locked_has_live_holder, no_lost_update (counter = completed increments with a non-atomic read/write)."),
+                "locked_has_live_holder, no_lost_update (counter = completed increments with a non-atomic read/write); "
+                "ids_distinct (thread ids handed out by the generator protocol are > 0 and pairwise distinct in every "
+                "interleaving; load-then-add counterexample), with the shape of NewThreadID re-extracted on every run."),
     level_note=("Trusted: Lean kernel + propext/Classical.choice/Quot.sound; that each MutexesMutex-guarded section is atomic "
                 "(the skeleton shows every table access bracketed by that one lock) and that sync.Mutex is a correct lock; "
-                "thread ids are > 0 and distinct (NewThreadID counts up from 1 under a lock); the body of a block is "
+                "the model of the id generator (Ecal.ThreadId) and its go/ast shape extractor; the body of a block is "
                 "unconstrained in the model, fairness/termination of bodies is not claimed; the go/ast skeleton extractor "
                 "and the correspondence harness."),
 )
@@ -119,7 +124,8 @@ def run(ctx):
     cov["axioms_used"] = lres["axioms"]
     cov["trusted_base"] = checklib.BASE_TRUSTED + [
         "sync.Mutex is a lock; every section guarded by erp.MutexesMutex is atomic (modelled as one event)",
-        "thread ids are > 0 and pairwise distinct (ThreadPool.NewThreadID: counter from 1 under workerIDLock)",
+        "thread ids > 0 and distinct: proved for the generator protocol (ids_distinct), tied to ThreadPool.NewThreadID by "
+        "the extracted access shape (newThreadID_is_one_critical_section) and by the id-hammer cases (mode I)",
         "go/ast skeleton extractor (go/cmd/harness/c12tool.go): identifiers normalised by role, table section sorted",
         "the expansion of an observed enter/exit into model events in lean/Ecal/Drivers/C12.lean",
     ]
